@@ -255,6 +255,119 @@ func runC14(c *Ctx) {
 	c.R.Check(nTx >= 6, r1, "transactional orchestrator methods found", "", "ok", "fewer transactional orchestrator methods found than on the reference tree", false)
 	c14R4(c)
 	c14R6(c)
+	c14R3(c)
+}
+
+// c14R3: a service method that changed the live instance before persisting it
+// puts the previous values back when the store write fails (F7). The instance
+// is the object Get/List hand out, and the orchestrator registers its rollback
+// step only after the service call succeeded, so nothing else undoes it.
+func c14R3(c *Ctx) {
+	r := c.R.Rule("R3", "K4 restore on a failed persist: in the pipeline/connector/processor services every exported field of the live instance assigned before store.Set is assigned again on every exit behind store.Set's failure edge", 20)
+	// tabled exceptions: same shape, no failing behaviour demonstrated through the management API
+	exempt := map[string]string{
+		"(*" + pConn + ".Service).SetState":     "not reached from the orchestrator's create/update/delete calls (called by the lifecycle/provisioning paths); F7 verdict lists it as an undemonstrated suspect",
+		"(*" + pPipe + ".Service).UpdateStatus": "the in-memory status mirrors what the run is actually doing; restoring it on a failed write is not obviously right (F7 verdict)",
+	}
+	n := 0
+	for _, rel := range []string{pPipe, pConn, pProc} {
+		p := c.W.Pkg(rel)
+		if p == nil {
+			c.R.Unresolved(r, rel)
+			continue
+		}
+		sp := c.W.SSA[p.Types]
+		set := c.Fn(r, rel, "(*Store).Set")
+		svcT := c.W.LookupType(rel, "Service")
+		if set == nil || svcT == nil {
+			continue
+		}
+		ms := c.W.Prog.MethodSets.MethodSet(types.NewPointer(svcT))
+		for i := 0; i < ms.Len(); i++ {
+			fn := c.W.Prog.MethodValue(ms.At(i))
+			if fn == nil || fn.Pkg != sp {
+				continue
+			}
+			for _, call := range kit.CallsTo(fn, Set(set)) {
+				args := call.Common().Args
+				inst := args[len(args)-1]
+				base := kit.PathOf(inst)
+				if strings.HasPrefix(base, "<") || strings.Contains(base, "@") {
+					// a freshly built instance that is not in the service's map yet (Create persists first, then publishes)
+					if _, isAlloc := kit.Unwrap(inst).(*ssa.Alloc); isAlloc {
+						continue
+					}
+				}
+				// fields of that instance assigned on a path to the Set call
+				pre := map[*types.Var][]*ssa.Store{}
+				var order []*types.Var
+				for _, b := range fn.Blocks {
+					for _, in := range b.Instrs {
+						st, ok := in.(*ssa.Store)
+						if !ok {
+							continue
+						}
+						fa, ok := st.Addr.(*ssa.FieldAddr)
+						if !ok || kit.PathOf(fa.X) != base {
+							continue
+						}
+						f := kit.FieldOf(fa)
+						if f == nil || !f.Exported() {
+							continue
+						}
+						if kit.Reaches(st, call, nil) {
+							if pre[f] == nil {
+								order = append(order, f)
+							}
+							pre[f] = append(pre[f], st)
+						}
+					}
+				}
+				if len(order) == 0 {
+					continue
+				}
+				for _, f := range order {
+					n++
+					key := kit.FuncKey(fn) + ": " + f.Name() + " restored when store.Set fails"
+					if why, ok := exempt[kit.FuncKey(fn)]; ok {
+						c.R.Pass(r, key, c.Pos(call.Pos()), "tabled exception: "+why, false)
+						continue
+					}
+					g := kit.NewGates()
+					for _, b := range fn.Blocks {
+						for _, in := range b.Instrs {
+							if st, ok := in.(*ssa.Store); ok {
+								if fa, ok := st.Addr.(*ssa.FieldAddr); ok && kit.PathOf(fa.X) == base && kit.SameField(kit.FieldOf(fa), f) {
+									isPre := false
+									for _, ps := range pre[f] {
+										if ps == st {
+											isPre = true
+										}
+									}
+									if !isPre {
+										g.AddInstr(st, "restore "+f.Name())
+									}
+								}
+							}
+						}
+					}
+					ok := !g.Empty()
+					for _, e := range kit.FailEdges(call) {
+						if pass, _ := kit.AllExitsFromEdge(e, false, kit.ExitSpec{Gates: g}); !pass {
+							ok = false
+						}
+					}
+					if len(kit.FailEdges(call)) == 0 {
+						ok = false
+					}
+					c.R.Check(ok, r, key, c.Pos(call.Pos()), "restored on every failing exit", kit.FuncKey(fn)+" assigns "+f.Name()+" on the live instance before store.Set and does not put the previous value back when the write fails: the API call returns an error, nothing is persisted, but Get/List keep reporting the new value (memory != store)", true)
+				}
+			}
+		}
+	}
+	if n == 0 {
+		c.R.Fail(r, "service methods that change an instance before persisting it", "", "none found (store.Set anchors moved?)")
+	}
 }
 
 // svcCall2 classifies a service call inside an inverse closure (the receiver is
@@ -354,9 +467,11 @@ func c14R6(c *Ctx) {
 	namesF := c.Field(r, pPipe, "Service", "instanceNames")
 	cfgF := c.Field(r, pPipe, "Instance", "Config")
 	nameF := c.Field(r, pPipe, "Config", "Name")
-	cfgStores := storesToField(fn, cfgF, nil)
+	// the replacement is the store of the cfg parameter (a store of a saved old value on the
+	// failed-persist path is the restore, see R3)
+	cfgStores := storesToField(fn, cfgF, func(v ssa.Value) bool { return fromParam(v, argParam(fn, 2)) })
 	if len(cfgStores) != 1 {
-		c.R.Fail(r, "pipeline.Service.Update: config replacement", c.Pos(fn.Pos()), "expected one store to Instance.Config")
+		c.R.Fail(r, "pipeline.Service.Update: config replacement", c.Pos(fn.Pos()), "expected one store of the cfg parameter to Instance.Config")
 		return
 	}
 	n := 0
@@ -370,8 +485,11 @@ func c14R6(c *Ctx) {
 			if !ok || bi.Name() != "delete" || !kit.IsFieldLoad(call.Call.Args[0], namesF) {
 				continue
 			}
-			n++
 			key := call.Call.Args[1]
+			if fromParam(key, argParam(fn, 2)) {
+				continue // un-reserving the NEW name again when the persist failed (R3)
+			}
+			n++
 			okOld := kit.IsFieldLoad(key, nameF) && !kit.Reaches(cfgStores[0], key.(ssa.Instruction), nil)
 			c.R.Check(okOld, r, "pipeline.Service.Update: the freed name is the previous one", c.Pos(call.Pos()), "pl.Config.Name read before pl.Config = cfg", "the name removed from the name index is read after the config was replaced (it is the NEW name): the old name stays reserved forever and a later create/rename to it is refused although no such pipeline exists", true)
 		}
